@@ -41,3 +41,48 @@ def c03_odd_zero_sign(site, w):
         if a == 0 and str(a) != str(b):
             differs_somewhere = True
     return differs_somewhere
+
+
+_MINNORMAL = {"complex64": 2.0**-126, "complex128": 2.0**-1022, "float32": 2.0**-126, "float64": 2.0**-1022}
+
+
+def _xy(w):
+    return abs(_unfl(w["x"])), abs(_unfl(w["y"])), _unfl(w["x"]), _unfl(w["y"])
+
+
+def c01_sqrt_both_subnormal(site, w):
+    """complex sqrt when both components are subnormal: hypot(|x|,|y|)/2 + |x|/2 is formed in the subnormal range (few significant bits),
+    it is not zero so the underflow-safe branch is not taken"""
+    if site != "ulp-bound:sqrt":
+        return False
+    ax, ay, _, _ = _xy(w)
+    mn = _MINNORMAL[w["dtype"]]
+    return ax < mn and ay < mn and (ax > 0 or ay > 0)
+
+
+def c01_unit_real_subnormal_imag(site, w):
+    """asin/acos/acosh at Re = +-1 exactly with a subnormal Im (asinh: Im = +-1 with subnormal Re): the kernel's 0.5*y loses the low bits of /
+    flushes a subnormal y before sqrt, so the component that should be ~sqrt(|y|) is off by many ULP or 0"""
+    fn = w.get("function")
+    if site != "ulp-bound:" + str(fn) or fn not in ("asin", "acos", "acosh", "asinh"):
+        return False
+    ax, ay, _, _ = _xy(w)
+    mn = _MINNORMAL[w["dtype"]]
+    big, small = (ay, ax) if fn == "asinh" else (ax, ay)
+    return big == 1.0 and 0 < small < mn
+
+
+def c01_unit_squared_component_underflows(site, w):
+    """atanh at Re = +-1 (atan at Im = +-1, log1p at Re = -1) with the other component so small that its square is subnormal or underflows:
+    the term y*y vanishes / loses bits and log of the (then zero or inaccurate) squared distance to the singularity gives -inf or a large error"""
+    fn = w.get("function")
+    if fn not in ("atanh", "atan", "log1p") or site not in ("spurious-inf:" + fn, "ulp-bound:" + fn):
+        return False
+    ax, ay, x, y = _xy(w)
+    mn = _MINNORMAL[w["dtype"]]
+    lim = mn ** 0.5
+    if fn == "atan":
+        return ay == 1.0 and 0 < ax < lim
+    if fn == "log1p":
+        return x == -1.0 and 0 < ay < lim
+    return ax == 1.0 and 0 < ay < lim
